@@ -34,14 +34,19 @@ def new_texts(gen_inv, pinned_inv):
     g, p = _items(gen_inv), _items(pinned_inv)
     def un(x): return x.encode().decode('unicode_escape') if '\\' in x else x
     strs = [un(i[4:]) for (mod, i), c in g.items() if i.startswith('str:') and c > p.get((mod, i), 0)]
+    # … and, second, every string literal of a module whose inventory changed at all (a test against a text that was already there)
+    changed = set(mod for (mod, i), c in g.items() if c != p.get((mod, i), 0)) | set(mod for (mod, i) in p if (mod, i) not in g)
+    strs += [un(i[4:]) for (mod, i), c in sorted(g.items()) if i.startswith('str:') and mod in changed and un(i[4:]) not in strs and 2 < len(i) - 4 < 40][:24]
     chrs = [un(i[4:]) for (mod, i), c in g.items() if i.startswith('chr:') and c > p.get((mod, i), 0)]
-    return sorted(set(strs)), sorted(set(chrs))
+    seen_ = set(); strs = [x for x in strs if not (x in seen_ or seen_.add(x))]
+    return strs, sorted(set(chrs))
 
 def text_candidates(strs, chrs, cap=400):
-    strs = strs[:8]; chrs = chrs[:4]
+    strs = strs[:30]; chrs = chrs[:4]
+    pairs = strs[:8]
     base = list(strs)
-    for a in strs:
-        for b in strs:
+    for a in pairs:
+        for b in pairs:
             if a != b: base += [a + b, a + ' ' + b, a + 'x' + b, a + 'eu1' + b]
     out = []
     for t in base:
